@@ -268,6 +268,7 @@ macro_rules! reg_like_actor {
                 for c in cmds {
                     match c {
                         RCmd::Send(d, m) => o.send(d, $internal(m)),
+                        RCmd::Bcast(ds, m) => o.broadcast(&ds, &$internal(m)),
                         RCmd::SetTimer(t) => o.set_timer(t, stateright::actor::model_timeout()),
                         RCmd::CancelTimer(t) => o.cancel_timer(t),
                         RCmd::Choose(k, opts) => {
@@ -395,7 +396,7 @@ impl Actor for MiniPeer {
     type Random = ();
     fn on_start(&self, id: Id, o: &mut Out<Self>) -> S {
         let (s, cmds) = self.0.eval_start(id);
-        for c in cmds {
+        for c in crate::s2::script::flat(cmds) {
             if let RCmd::Send(d, m) = c {
                 o.send(d, m)
             }
@@ -407,7 +408,7 @@ impl Actor for MiniPeer {
         if let Some(n) = e.new_state {
             *state = Cow::Owned(n);
         }
-        for c in e.cmds {
+        for c in crate::s2::script::flat(e.cmds) {
             if let RCmd::Send(d, m) = c {
                 o.send(d, m)
             }
